@@ -33,7 +33,12 @@ _dc_cache = {}
 def make_dc(names):
     key = tuple(names)
     if key not in _dc_cache:
-        _dc_cache[key] = dataclasses.make_dataclass("DC_" + "_".join(names) if names else "DC_empty", list(names))
+        # every field has a declared default (1, 0.0, '', None in turn): instances are always built with explicit values, some of
+        # which are equal (==) to the default without being the same value for dds (1.0, True, 0, -0.0)
+        import typing
+        dflt = [1, 0.0, "", None]
+        _dc_cache[key] = dataclasses.make_dataclass("DC_" + "_".join(names) if names else "DC_empty",
+                                                    [(n, typing.Any, dataclasses.field(default=dflt[i % 4])) for i, n in enumerate(names)])
     return _dc_cache[key]
 
 
